@@ -8,6 +8,12 @@ Bounded exhaustive enumeration (driver E1) on the real lena code:
     evaluated on every value of a small family (data x contexts, with scalars on the dotted path) and
     the boolean / exception type is compared with a recursive reference evaluator (mc/ref/c15_model.py);
   * specifications whose sub-selectors carry their own raise_on_error (barrier semantics);
+  * histories over ONE specification object (a list / tuple nested to depth 2, written once): several
+    selectors are made from it one after another in every construction form (Selector, Or / And, Not,
+    Filter, as the item of another list / tuple) and with both settings, each must evaluate the
+    specification with its OWN raise_on_error; then the user edits the lists of his object (append,
+    insert, pop, replace) and every selector must still evaluate the specification (as it was built
+    from, or as the object reads now - both readings accepted);
   * SelectContext over present / absent / through-a-scalar keys in the key notations (dotted string,
     list, both dictionary spellings), the empty key (the whole context) included;
   * key paths of every length 0..4 (SelectContext) / 1..5 (string selectors) over two keys, so that
@@ -38,6 +44,12 @@ RULE = ("every selector specification of the tier's grammar is built once per ra
         "components in every notation (SelectContext) is evaluated on every chain context; non-trivial "
         "when at least two components of the string are keys on the way down or the value is selected "
         "(strings), when the addressed sub-context is present (SelectContext). "
+        "Shared-specification law: one Python object per specification, every ordered pair (thorough: also "
+        "triple) of (construction form, raise_on_error) builds from that object, then every selector on every "
+        "value, in two (three) evaluation orders; and one build followed by one edit of every list of the object; "
+        "one evaluation = one case, non-trivial when the reference answers of the selectors of the history "
+        "differ on that value (after an edit: when the specification before and after the edit give different "
+        "answers). "
         "Every accepted (group_by, merge) assignment is run on every ordered pair of family contexts "
         "(fresh GroupBy per pair) and on the whole family in one GroupBy; a GroupBy pair is non-trivial "
         "when the two contexts differ and the statement fixes whether they share a group. Filter "
@@ -61,6 +73,12 @@ ASSUMPTIONS = [
     "counts as 'not selected' at the leaf, or at the innermost enclosing raise_on_error=False node",
     "And/Or objects called directly with raise_on_error=False around pre-built raise_on_error=True "
     "selectors are outside the alphabet (documented: the setting applies to newly initialised items)",
+    "shared-specification law: containers hold leaves and containers only (no Not; pre-built selectors only as "
+    "the items of the outermost list and with the setting of the one selector built from it, so every leaf has "
+    "the setting of the selector it is built into); the user edits his lists only after the "
+    "selectors have been built and evaluated once, never while one is being evaluated; after an edit a selector may evaluate the "
+    "specification it was built from or the one the object describes now (R2), nothing else; whether "
+    "construction may change the user's object is not judged (only recorded in the cause)",
     "GroupBy: a key listed in both group_by and merge is outside the alphabet; two contexts that differ "
     "only in the existence of an empty projected sub-dictionary may or may not share a group (R2)",
     "acceptance of a (group_by, merge) pair is taken from lena (LenaValueError = not accepted), as in "
@@ -275,6 +293,7 @@ class Ref(object):
         self.values = [make_value(vj) for vj in vjs]
         self._leaf = {}
         self._real_leaf = {}
+        self._table = {}
         self.outcomes = set()
         self.memo = dict((spec, {}) for spec in shared if not M.is_leaf(spec))
 
@@ -291,6 +310,16 @@ class Ref(object):
 
     def acceptable(self, spec, vi, roe, mixed=False):
         return M.acceptable(spec, vi, roe, mixed=mixed, leaf=self.leaf, memo=self.memo)
+
+    def table(self, refspec, roe):
+        """The acceptable outcomes of one reference specification on every value of the family
+        (remembered: the history law asks for the same selector in many histories)."""
+        key = (refspec, roe)
+        t = self._table.get(key)
+        if t is None:
+            t = [self.acceptable(refspec, vi, roe) for vi in range(len(self.values))]
+            self._table[key] = t
+        return t
 
     def real_leaf(self, spec, vi, roe):
         """What the real leaf selector, built on its own, answers (for attributing a violation)."""
@@ -431,6 +460,270 @@ def replay_selector(res, case):
     spec = M.from_json(case["spec"])
     ref = Ref([case["value"]])
     check_spec(res, ref, spec, case["roe"], case["form"], mixed=(case["law"] == "selector-mixed-roe"))
+
+
+# --------------------------------------------------------------------------------------------------
+# one specification object in the hands of its user: several selectors made from it, edits afterwards
+# --------------------------------------------------------------------------------------------------
+#
+# A specification is a Python object the user owns. The statement speaks about what a selector
+# evaluates - its specification, with its raise_on_error - and nothing in it depends on what else the
+# user does with the object he wrote the specification in. The history law builds the object ONCE,
+# hands it to several constructors one after another (every form, both settings) and demands from
+# every selector what the reference evaluator says for (specification, its own setting); afterwards
+# the user edits the lists of his object and the selectors are asked again (rule R2: a selector may
+# describe the specification as it was when it was built or as the object reads now).
+
+SHARED_FORMS = ("selector", "direct", "not", "filter", "in-list", "in-tuple")
+
+
+def shared_builds(forms):
+    """(form, raise_on_error) steps; Filter converts a specification with the default setting."""
+    out = []
+    for form in forms:
+        if form == "filter":
+            out.append(("filter", True))
+        else:
+            out.extend((form, roe) for roe in (True, False))
+    return out
+
+
+def shared_edits(leaves):
+    out = [("pop",)]
+    for op in ("append", "insert", "replace"):
+        out.extend((op, lf) for lf in leaves)
+    return out
+
+
+def shared_specs(leaves, width, depth):
+    """Lists and tuples of 0..width items over the leaves (depth 1); lists and tuples of 1..2 items
+    over leaves and depth-1 containers with at least one container among them (depth 2). No Not and
+    no pre-built selector inside: every leaf gets the setting of the selector it is built into."""
+    l1 = composites(leaves, width, True, nots=False)
+    if depth == 1:
+        return l1
+    children = list(leaves) + composites(leaves, 2, True, nots=False)
+    out = []
+    for kind in ("or", "and"):
+        for w in (1, 2):
+            for items in itertools.product(children, repeat=w):
+                if any(not M.is_leaf(c) for c in items):
+                    out.append((kind, items))
+    return out
+
+
+class _FilterProbe(object):
+    """A Filter seen as a boolean function: does a flow of this one value pass run()."""
+
+    def __init__(self, filt):
+        self.filt = filt
+
+    def __call__(self, value):
+        return len(list(self.filt.run(iter([value])))) == 1
+
+
+def shared_refspec(spec, form, roe):
+    if form in ("selector", "filter"):
+        return ("sel", spec, roe)
+    if form == "direct":
+        return spec
+    if form == "not":
+        return ("not", spec, roe)
+    if form == "in-list":       # the object as the only item of another specification
+        return ("sel", ("or", (spec,)), roe)
+    if form == "in-tuple":
+        return ("sel", ("and", (spec,)), roe)
+    raise ValueError(form)
+
+
+def shared_make(obj, spec, form, roe):
+    """The selector a user gets from his specification object *obj* in one of the documented ways."""
+    if form == "selector":
+        return lena.flow.Selector(obj, raise_on_error=roe)
+    if form == "direct":
+        cls = lena.flow.Or if spec[0] == "or" else lena.flow.And
+        return cls(obj, raise_on_error=roe)
+    if form == "not":
+        return lena.flow.Not(obj, raise_on_error=roe)
+    if form == "filter":
+        return _FilterProbe(lena.flow.Filter(obj))
+    if form == "in-list":
+        return lena.flow.Selector([obj], raise_on_error=roe)
+    if form == "in-tuple":
+        return lena.flow.Selector((obj,), raise_on_error=roe)
+    raise ValueError(form)
+
+
+def collect_lists(obj, acc=None):
+    """The list objects of a user's specification, items before their container."""
+    if acc is None:
+        acc = []
+    if isinstance(obj, (list, tuple)):
+        for item in obj:
+            collect_lists(item, acc)
+        if isinstance(obj, list):
+            acc.append(obj)
+    return acc
+
+
+def same_spec_object(obj, twin):
+    """Two specification objects written from the same specification still read the same."""
+    if type(obj) is not type(twin):
+        return False
+    if isinstance(obj, (list, tuple)):
+        return len(obj) == len(twin) and all(same_spec_object(a, b) for a, b in zip(obj, twin))
+    return obj is twin or (isinstance(obj, str) and obj == twin) or (
+        isinstance(obj, lena.flow.Selector) and isinstance(twin, lena.flow.Selector))
+
+
+def check_shared(res, ref, spec, builds, mode, edit=None, sample=False, items="raw"):
+    """One specification object, *builds* = [(form, raise_on_error), ...] made from it in this order.
+
+    mode "each": a selector is evaluated on every value as soon as it is built, and all of them once
+    more when all are built; "end": only when all are built; "end-rev": the same, the selector built
+    last is asked first.  *edit*: then the user edits every list of his object (M.edit_spec) and all
+    selectors are asked again; both readings of what their specification now is are accepted.
+    items "prebuilt": the user wrote every item of the outermost container as Selector(item, r) with
+    the r he also gives to the (single) build - one setting throughout, the same meaning as "raw".
+    A case = one evaluation of one selector on one value. It is non-trivial when the reference gives
+    the selectors of the history different answers on that value (so a selector that took anything
+    over from its sibling is told apart), after an edit when the two readings differ."""
+    case = {"law": "shared-spec", "spec": M.to_json(spec), "builds": [list(b) for b in builds],
+            "mode": mode, "edit": M.to_json(edit) if edit else None, "items": items, "values": ref.vjs}
+    nvalues = len(ref.values)
+    if items == "prebuilt":
+        if len(set(roe for _, roe in builds)) != 1:
+            raise ValueError("pre-built items: one setting throughout")
+        r = builds[0][1]
+        spec = (spec[0], tuple(("sel", c, r) for c in spec[1]))
+    obj = build(spec, True)
+    twin = build(spec, True)
+    user_lists = collect_lists(obj)
+    exps = [ref.table(shared_refspec(spec, form, roe), roe) for form, roe in builds]
+    differ = [len(set(e[vi] for e in exps)) > 1 for vi in range(nvalues)]
+    state = {"modified": False, "n": 0, "nt": 0}
+    sels = []
+
+    def judge(k, phase, exp, hot):
+        form, roe = builds[k]
+        reported = False
+        for vi, value in enumerate(ref.values):
+            got = observe(sels[k], value)
+            state["n"] += 1
+            if hot[vi]:
+                state["nt"] += 1
+            okey = (phase, got, exp[vi])
+            if okey not in ref.outcomes:
+                ref.outcomes.add(okey)
+                res.outcome((phase, got, tuple(sorted(exp[vi]))))
+            if got in exp[vi] or reported:
+                continue
+            reported = True
+            refspec = shared_refspec(spec, form, roe)
+            # what a selector made in the same way from an object nobody else has used says
+            try:
+                alone = observe(shared_make(build(spec, True), spec, form, roe), value)
+            except Exception as e:  # noqa
+                alone = ("construct", type(e).__name__)
+            if phase != "edited" and alone not in exp[vi]:
+                # wrong without any history: the defect the selector law reports
+                cause = selector_cause(ref, refspec, roe, form, vi, got, exp[vi], False)
+            else:
+                cause = {"law": "shared-spec",
+                         "phase": "after the user's edit" if phase == "edited" else "selectors built",
+                         "selector": ("the only one" if len(builds) == 1 else
+                                      "built first" if k == 0 else "built later"),
+                         "how": "raises" if got[0] == "exc" else _how(got, exp[vi]),
+                         "specification_object_changed_by_construction": state["modified"]}
+            res.violation(dict(case, failing={"build": k, "value": ref.vjs[vi], "phase": phase}),
+                          list(got), sorted(exp[vi]), cause,
+                          note="built alone from a fresh specification object the selector answers %r"
+                               % (alone,))
+
+    for k, (form, roe) in enumerate(builds):
+        try:
+            sels.append(shared_make(obj, spec, form, roe))
+        except Exception as e:  # noqa: an in-alphabet specification, used before or not
+            res.case(nontrivial=False, outcome=("construct", type(e).__name__))
+            res.violation(dict(case, failing={"build": k}), "construction raised " + type(e).__name__,
+                          "a selector",
+                          {"law": "shared-spec", "phase": "construction", "how": "raises " + type(e).__name__,
+                           "selector": "built first" if k == 0 else "built later"})
+            return
+        state["modified"] = state["modified"] or not same_spec_object(obj, twin)
+        if mode == "each":
+            judge(k, "built", exps[k], differ)
+    order = list(range(len(sels)))
+    if mode == "end-rev":
+        order.reverse()
+    for k in order:
+        judge(k, "all-built", exps[k], differ)
+    if edit is not None:
+        item = build(edit[1], True) if len(edit) > 1 else None
+        for lst in user_lists:
+            M.edit_list(lst, edit[0], item)
+        new = M.edit_spec(spec, edit)
+        for k in order:
+            form, roe = builds[k]
+            after = ref.table(shared_refspec(new, form, roe), roe)
+            both = [exps[k][vi] | after[vi] for vi in range(nvalues)]
+            judge(k, "edited", both, [exps[k][vi] != after[vi] for vi in range(nvalues)])
+    res.case(nontrivial=False, n=state["n"] - state["nt"])
+    if state["nt"]:
+        res.case(nontrivial=True, n=state["nt"])
+    res.count("shared_spec_histories")
+    if sample:
+        res.sample(case, 2)
+
+
+def _shared_dom(tier):
+    if tier == "thorough":
+        return dict(flat_width=3, modes=("each", "end", "end-rev"), nested_leaves=SMALL_LEAVES,
+                    nested_forms=("selector", "direct", "not"), nested_name="Selector / Or,And / Not")
+    return dict(flat_width=2, modes=("each", "end-rev"), nested_leaves=TINY_LEAVES,
+                nested_forms=("selector", "direct"), nested_name="Selector / Or,And")
+
+
+def run_shared(res, tier, part, chunk, chunks):
+    """part "flat": every depth-1 container, every ordered pair (thorough: also every triple of the
+    Selector / Or / And / Not builds) of builds in every form, two (three) evaluation orders; one build
+    followed by every edit.
+    part "nested": every depth-2 container, ordered pairs of Selector / Or / And (thorough: / Not)
+    builds; one Selector build followed by every edit."""
+    thorough = tier == "thorough"
+    sd = _shared_dom(tier)
+    vjs = [v for v in sel_values() if v["ctx"] in (None, {"a": 1}, {"a": {"b": 1}})]
+    if part == "flat":
+        leaves = SMALL_LEAVES
+        specs = shared_specs(leaves, sd["flat_width"], 1)
+        builds = shared_builds(SHARED_FORMS)
+        triples = shared_builds(("selector", "direct", "not")) if thorough else ()
+        modes = sd["modes"]
+        edit_builds = builds
+    else:
+        leaves = sd["nested_leaves"]
+        specs = shared_specs(leaves, 2, 2)
+        builds = shared_builds(sd["nested_forms"])
+        triples = ()
+        modes = ("each",)
+        edit_builds = shared_builds(("selector",))
+    ref = Ref(vjs)
+    edits = shared_edits(leaves)
+    before = res.nontrivial_count
+    for i, spec in enumerate(specs):
+        if i % chunks != chunk:
+            continue
+        for hist in itertools.chain(itertools.product(builds, repeat=2), itertools.product(triples, repeat=3)):
+            for mode in modes:
+                check_shared(res, ref, spec, hist, mode, sample=(hist[0] != hist[1]))
+        for b in edit_builds:
+            for edit in edits:
+                if M.has_list(spec):
+                    check_shared(res, ref, spec, (b,), "end", edit=edit)
+                if spec[0] == "or" and spec[1]:
+                    check_shared(res, ref, spec, (b,), "end", edit=edit, items="prebuilt")
+    if res.nontrivial_count == before:
+        raise AssertionError("shared-spec shard without a single non-trivial evaluation")
 
 
 # --------------------------------------------------------------------------------------------------
@@ -830,13 +1123,16 @@ def gb_accepts(g, m):
 
 def _dom(tier):
     if tier == "thorough":
-        return dict(chunks=16, deep_leaves=SMALL_LEAVES, deep_name="4-leaf", extras=True)
-    return dict(chunks=8, deep_leaves=TINY_LEAVES, deep_name="2-leaf", extras=False)
+        return dict(chunks=16, deep_leaves=SMALL_LEAVES, deep_name="4-leaf", extras=True, shared_chunks=16,
+                    shared_flat_chunks=16)
+    return dict(chunks=8, deep_leaves=TINY_LEAVES, deep_name="2-leaf", extras=False, shared_chunks=2,
+                shared_flat_chunks=1)
 
 
 def describe(tier):
     d = _dom(tier)
     pd = _path_dom(tier)
+    sd = _shared_dom(tier)
     return ("selectors: 10 leaves (3 strings, 2 classes, 5 callables); depth <= 1 with lists/tuples of 0..3 "
             "items; depth 2 = Not / list / tuple of 1..2 items over all 242 depth<=1 specifications with "
             "0..2 items%s; depth 3 = Not / list / tuple of (one depth-2 item [+ one leaf-level item]) over a "
@@ -847,7 +1143,12 @@ def describe(tier):
             "component 1 / 0) as Selector / Not / [s] / (s,) x %d chain contexts of depth 0..%d (5 kinds of "
             "ends, plain and with a sibling key at every level), %d SelectContext keys (paths of 0..%d "
             "components in every notation) x 4 predicates x both raise_on_error x %d chain contexts; "
-            "own raise_on_error per sub-selector to depth 2%s; Filter over all "
+            "own raise_on_error per sub-selector to depth 2%s; shared specification object: %d depth-1 "
+            "containers (0..%d items over 4 leaves) x all ordered pairs of %d builds (Selector / Or,And / Not "
+            "x both raise_on_error, Filter, as the item of a list / a tuple)%s x %d evaluation orders, %d depth-2 "
+            "containers over %d leaves x ordered pairs of %s builds, and one build + one of %d / %d "
+            "edits of every list (pop; append / insert / replace with every leaf), items raw or pre-built "
+            "selectors; Filter over all "
             "depth<=1 specifications x 2 flows x run/fill_into; GroupBy: all %d assignments of %s to "
             "group_by / merge / unlisted, %d contexts, all ordered pairs + whole-family flows in three "
             "listing orders"
@@ -859,6 +1160,11 @@ def describe(tier):
                len(path_strings(pd["s_len"])), pd["s_len"], len(path_values(pd["s_depth"])), pd["s_depth"],
                len(path_sc_keys(pd["sc_len"])), pd["sc_len"], len(path_values(pd["sc_depth"])),
                " (+ one more level)" if d["extras"] else "",
+               len(shared_specs(SMALL_LEAVES, sd["flat_width"], 1)), sd["flat_width"],
+               len(shared_builds(SHARED_FORMS)),
+               " and all triples of the 6 Selector / Or,And / Not builds" if d["extras"] else "", len(sd["modes"]),
+               len(shared_specs(sd["nested_leaves"], 2, 2)), len(sd["nested_leaves"]), sd["nested_name"],
+               len(shared_edits(SMALL_LEAVES)), len(shared_edits(sd["nested_leaves"])),
                2 * 3 ** (len(gb_keys(tier)) - 1), gb_keys(tier), len(gb_family(tier))))
 
 
@@ -871,8 +1177,14 @@ def shards(tier):
     for part in ("strings", "sc"):
         for ch in range(_path_dom(tier)["chunks"]):
             out.append({"kind": "paths", "part": part, "chunk": ch, "bound": "depth<=1"})
+    for ch in range(d["shared_flat_chunks"]):
+        out.append({"kind": "shared", "part": "flat", "chunk": ch, "chunks": d["shared_flat_chunks"],
+                    "bound": "depth<=1"})
     for roe in (True, False):
         out.append({"kind": "mixed", "outer": roe, "bound": "depth<=2"})
+    for ch in range(d["shared_chunks"]):
+        out.append({"kind": "shared", "part": "nested", "chunk": ch, "chunks": d["shared_chunks"],
+                    "bound": "depth<=2"})
     for roe in (True, False):
         out.append({"kind": "sel2not", "roe": roe, "bound": "depth<=2"})
         for top in ("or", "and"):
@@ -991,6 +1303,8 @@ def run_shard(p, tier):
         run_paths(res, tier, p["part"], p["chunk"])
     elif kind == "groupby":
         run_groupby(res, tier, p["fixed"])
+    elif kind == "shared":
+        run_shared(res, tier, p["part"], p["chunk"], p["chunks"])
     else:
         raise ValueError(p)
     return res
@@ -1164,6 +1478,11 @@ def replay(case):
     law = case.get("law")
     if law in ("selector", "selector-mixed-roe"):
         replay_selector(res, case)
+    elif law == "shared-spec":
+        check_shared(res, Ref(case["values"]), M.from_json(case["spec"]),
+                     tuple(tuple(b) for b in case["builds"]), case["mode"],
+                     edit=M.from_json(case["edit"]) if case.get("edit") else None,
+                     items=case.get("items", "raw"))
     elif law == "filter":
         check_filter(res, M.from_json(case["spec"]), case["roe"], case["how"], case["values"], case["flow"])
     elif law == "groupby-pair":
@@ -1187,13 +1506,17 @@ def replay(case):
 LEVEL_TEXT = ("bounded exhaustive exploration: every selector specification of a 10-leaf alphabet nested "
               "to depth 2 (depth 3 over reduced alphabets), both raise_on_error settings and three "
               "construction forms, is executed on every value of a data x context family and compared "
-              "with a recursive reference evaluator; every dotted string of 1..5 components and every "
+              "with a recursive reference evaluator; one specification object (lists / tuples to depth 2) is "
+              "handed to every ordered pair of constructions (6 forms, both settings) and then edited by its "
+              "user, every selector made from it judged by the same evaluator with its own setting; every dotted string of 1..5 components and every "
               "SelectContext key path of 0..4 components (all notations, the empty key included) is "
               "executed on chains of nested dictionaries of every depth 0..5 / 0..4; every accepted (group_by, merge) assignment over "
               "{'', a, b, a.b, a.c, a.b.c} is executed on every ordered pair of a 124-context depth-3 "
               "family and judged by the longest-listed-prefix rule")
 LEVEL_NOTE = ("holds for the enumerated alphabets only; truth values and exception types are compared; "
               "where the statement leaves a choice (short-circuit vs eager OR/AND, empty projected "
-              "sub-dictionaries) both readings are accepted")
+              "sub-dictionaries, a specification list edited after a selector was built from it) both "
+              "readings are accepted")
 TECHNIQUE = ("exhaustive enumeration of specifications x values (selectors) and key-set assignments x "
-             "context pairs (GroupBy) on the real code against independent reference models")
+             "context pairs (GroupBy) on the real code against independent reference models; bounded histories "
+             "(builds, evaluations, edits) over one user-owned specification object")
